@@ -75,6 +75,11 @@ class _Handler(BaseHTTPRequestHandler):
     def log_message(self, format: str, *args: Any) -> None:  # noqa: A002
         return
 
+    def setup(self) -> None:
+        super().setup()
+        with contextlib.suppress(OSError):
+            self.connection.setsockopt(socket.IPPROTO_TCP, socket.TCP_NODELAY, 1)
+
     def finish(self) -> None:
         with contextlib.suppress(Exception):
             super().finish()
@@ -180,7 +185,7 @@ class Origin:
 
     def _respond(self, h: _Handler, req: Req, beh: dict[str, Any]) -> None:
         entry = req.entry
-        entry["status"] = beh.get("status", 200)
+        entry["status"] = "drop" if beh.get("drop") else beh.get("status", 200)
         if "tag" in beh:
             entry["tag"] = beh["tag"]
         if beh.get("drop"):
@@ -381,10 +386,10 @@ def serve_object(req: Req, obj: dict[str, Any], peers: dict[str, str] | None = N
                     the hop index travels in the ``_h`` query parameter so the origin can see how
                     deep a chain was followed
     head            {"status": 200, "cl": "true"|"absent"|"garbage"|int, "ar": "bytes"|"none"|None,
-                     "ce": "same"|None|str, "pre_delay": s, "drop": bool}
+                     "ce": "same"|None|str, "pre_delay": s, "drop": True (RST) | "fin", "drop_first": k}
     get             {"status": 200, "length": "auto"|"none"|"chunked"|int, "abort_at": int,
                      "ce": "same"|None|str, "chunk": n, "chunk_delay": s, "pre_delay": s,
-                     "endless": hard_limit, "drop_first": k (drop the first k attempts)}
+                     "endless": hard_limit, "drop_first": k (drop the first k attempts), "drop_mode": True (RST) | "fin"}
     range           {"mode": "honour"|"ignore"|"short"|"long"|"endless"|"shift_honest"|"shift_lying"|
                      "no_cr"|"416"|"500"|"total_lie", "slow": {start_offset: seconds} (first request for
                      that range only), "fail_first": [start_offsets] (500 on the first request),
@@ -462,8 +467,8 @@ def serve_object(req: Req, obj: dict[str, Any], peers: dict[str, str] | None = N
     # -- HEAD -------------------------------------------------------------
     if kind == "HEAD":
         hs = obj.get("head") or {}
-        if hs.get("drop"):
-            return {"drop": True}
+        if hs.get("drop") and req.seen < int(hs.get("drop_first", 1 << 30)):
+            return {"drop": hs["drop"]}
         status = int(hs.get("status", 200))
         if status != 200:
             return {"status": status, "pre_delay": hs.get("pre_delay")}
@@ -491,7 +496,7 @@ def serve_object(req: Req, obj: dict[str, Any], peers: dict[str, str] | None = N
     gs = obj.get("get") or {}
     if kind == "GET" or (kind == "RANGE" and (obj.get("range") or {}).get("mode") == "ignore"):
         if kind == "GET" and req.seen < int(gs.get("drop_first", 0)):
-            return {"drop": True}
+            return {"drop": gs.get("drop_mode", True)}
         status = int(gs.get("status", 200))
         if status != 200:
             return {"status": status, "body": b"denied", "pre_delay": gs.get("pre_delay")}
